@@ -43,7 +43,7 @@ def _base():
     return st.one_of(txt, nasty, combo, combo, long_)
 
 
-RELATIONS = ["prefix", "suffix", "case", "delete-suffix", "nfd", "nfc", "slash", "dotdot", "bom"]
+RELATIONS = ["prefix", "suffix", "case", "delete-suffix", "nfd", "nfc", "slash", "dotdot", "bom", "percent-encoded"]
 
 
 def relate(b, rel, salt):
@@ -63,6 +63,13 @@ def relate(b, rel, salt):
         r = "\ufeff" + b          # U+FEFF is not white space: a different identifier
     elif rel == "slash":
         r = b + "/" + salt
+    elif rel == "percent-encoded":
+        # the same identifier as it looks inside a REST url: every reserved character (at least the last one) as %HH - a
+        # different string, hence a different identifier
+        import urllib.parse
+        r = urllib.parse.quote(b, safe="")
+        if r == b:
+            r = b[:-1] + "".join(f"%{x:02X}" for x in b[-1:].encode("utf-8"))
     else:
         r = "../" + b
     if r == b or any(ch.isspace() for ch in r) or not r:
